@@ -38,7 +38,9 @@ EXTRA = {
     'ENUM': ['.RED.', '.GREEN.', '.BLUE.', '.red.', '.Red.', 'RED', '.PURPLE.', '.RE.', '.REDD.', '.RED', 'RED.', '..', '.GREEN', '. RED.', '.RED .'],
     'BOOLEAN': ['.T.', '.F.', '.U.', '.TRUE.', '.FALSE.', '.t.', 'T', 'F'],
     'LOGICAL': ['.T.', '.F.', '.U.', '.UNKNOWN.', '.u.', 'U'],
-    'REF': ['#1', '#2', '#5', '#3', '#77', '#0', '#01', '#1 ', '# 1', '#-1', '#+1', '#1.', '1', '@1', '#', '##1', '#99999999999', '#2147483648'],
+    'REF': ['#1', '#2', '#5', '#3', '#77', '#0', '#01', '#1 ', '# 1', '#-1', '#+1', '#1.', '1', '@1', '#', '##1', '#99999999999', '#2147483648',
+            # numbers that equal an existing id modulo a power of two (a reference is not looked up in a narrower integer than it was read in)
+            '#65537', '#4294967297', '#4294967298', '#4294967301', '#8589934593', '#18446744073709551617', '#18446744073709551621', '#2147483649'],
 }
 ENUM_ITEMS = ['RED', 'GREEN', 'BLUE']
 LIB_REAL = re.compile(r'[+-]?(\d+\.?\d*|\.\d+)([eE][+-]?\d+)?$')
@@ -310,6 +312,24 @@ def writer_checks(chk, lib):
                     chk.violation('%s/writer/%s/value-changed/%s' % (PID, kind, tokshape(kind, tok)), '%r written back as %r' % (tok, out), {'kind': kind, 'token': tok})
                 else:
                     chk.outcome('writer-ok')
+        # a second read into the same attribute object answers like a read into a fresh one (differential: no expected value needed)
+        for kind, (ent, _, _, _) in KINDS.items():
+            d.cmd('E %s 0' % ent)
+            toks = [t for t in EXTRA.get(kind, []) if oracle(kind, t)[0] == 'grammar'][:6]
+            seconds = ['$', ''] + toks[:3]
+            for first in toks[:4]:
+                for second in seconds:
+                    for delim in (',', ')'):
+                        fresh = d.cmd('R ' + (second + delim).encode('latin1').hex())
+                        again = d.cmd('R2 %s %s' % ((first + ',').encode('latin1').hex(), (second + delim).encode('latin1').hex()))
+                        chk.count(states=1, transitions=2)
+                        chk.cls('re-read/' + kind)
+                        if [l for l in fresh] != [l for l in again]:
+                            what = 'unset' if second == '$' else ('missing' if second == '' else 'value')
+                            chk.violation('%s/re-read/%s/after-a-value/%s' % (PID, kind, what), 'reading %r into an attribute that held %r answers %r, into a fresh one %r' % (
+                                second + delim, first, b' '.join(again)[:120], b' '.join(fresh)[:120]), {'kind': kind, 'first': first, 'token': second, 'context': delim})
+                        else:
+                            chk.outcome('re-read-same')
     finally:
         d.close()
 
@@ -320,6 +340,15 @@ def replay(path):
     fam = smodel.family_K('fk', pairs='core')
     lib = build.schema_lib(fam.express(), 'plain')
     _init(lib.dir)
+    if 'first' in case:
+        d = _W['d']
+        d.cmd('E %s 0' % KINDS[case['kind']][0])
+        t2 = (case['token'] + case.get('context', ',')).encode('latin1').hex()
+        fresh = d.cmd('R ' + t2)
+        again = d.cmd('R2 %s %s' % ((case['first'] + ',').encode('latin1').hex(), t2))
+        print('fresh attribute :', fresh)
+        print('after reading %r:' % case['first'], again)
+        return 1 if fresh != again else 0
     if 'token' in case:
         v, c = run_chunk((case['kind'], [case['token']]))
         v = [x for x in v if x[2].get('context') == case.get('context', x[2].get('context'))]
